@@ -114,7 +114,9 @@ class Link(base.BaseObject):
         :param kill: the vertex to unlink
         """
         if kill in self._vertices:
-            self._vertices.remove(kill)
+            # a vertex may be listed more than once (both ends of a self-loop,
+            # for example); it is unlinked from all of those positions
+            self._vertices = [v for v in self._vertices if v is not kill]
 
             if kill is not None:
                 kill.remove_from_link(self)
